@@ -11,7 +11,8 @@
 (*                                                                                              *)
 (* Judged per line:  okU  ou = RefOutcome(cfg,q)      (C01; with filters: the 403 rules)         *)
 (*                   okC  oc = RefOutcome(cfg,q)      (C12: the cache is transparent)            *)
-(*                   c5u, c5c  C05 (i)-(ii) for ou against zu and for oc against zc              *)
+(*                   c5u, c5c  C05 (i)-(ii) for ou against zu and for oc against zc; c5c also    *)
+(*                             C05 (iii) for oc against ou                                       *)
 (* A line on which one of them fails is printed (VERIF_MISMATCH line json) with the contract's   *)
 (* prediction, and validation goes on, so that every line is judged; the driver decides which    *)
 (* of the four belong to the property being checked.                                             *)
@@ -42,11 +43,12 @@ TReq == /\ l <= Len(TLog) /\ TLog[l].ev = "req"
                okU == e.ou = exp
                okC == e.oc = exp
                c5u == C05OKOf(cfg, q, e.ou, e.zu, rs)
-               c5c == C05OKOf(cfg, q, e.oc, e.zc, rs)
+               c5c == C05OKOf(cfg, q, e.oc, e.zc, rs) /\ C05iiiOf(cfg, q, e.oc, e.ou, rs)
            IN IF okU /\ okC /\ c5u /\ c5c THEN TRUE
               ELSE PrintT(<<"VERIF_MISMATCH", l,
                           ToJson([exp |-> exp, own |-> rs, okU |-> okU, okC |-> okC, c5u |-> c5u, c5c |-> c5c,
                                   den |-> DeniedApplyingOf(cfg, q, rs), all |-> AllowedEverywhere(cfg, q),
+                                  amb |-> AmbiguousOf(cfg, q, rs),
                                   cown |-> IF e.cul = <<>> THEN rs ELSE RouteSpec(cfg, e.cul[1])])>>)
         /\ l' = l + 1
         /\ UNCHANGED vars
